@@ -16,13 +16,15 @@ upstream that is still unresolved in this tick. -/
 theorem gate_inv (w : Wiring) (react : React Val) (t : SimTime) (roots : List Comp)
     (s : TickSys Val) (hs : s.Reachable w react t roots) :
     ∀ d ∈ s.pending, ∀ us, w.ups d.comp = some us → ∀ u ∈ us, alookup s.tk.toUpdate u = none := by
-  sorry
+  intro d hd us hus u hu
+  have hi := hs.inv.pre
+  exact hi.gate d.comp ((hi.pend_flag _).1 ⟨d, hd, rfl⟩) us hus u hu
 
 /-- pending = dispatched and unresolved (flag `true` in `to_update`), exactly. -/
 theorem pending_iff_flag (w : Wiring) (react : React Val) (t : SimTime) (roots : List Comp)
     (s : TickSys Val) (hs : s.Reachable w react t roots) (c : Comp) :
     (∃ d ∈ s.pending, d.comp = c) ↔ alookup s.tk.toUpdate c = some true := by
-  sorry
+  exact hs.inv.pre.pend_flag c
 
 /-- everything ever dispatched or still to update belongs to the tick's extent, carries the
 tick's time, and the unresolved set only shrinks. -/
@@ -31,7 +33,7 @@ theorem within_extent (w : Wiring) (react : React Val) (t : SimTime) (roots : Li
     (∀ c, alookup s.tk.toUpdate c ≠ none → c ∈ extent w roots) ∧
     (∀ d, Ev.dispatch d ∈ s.trace → d.comp ∈ extent w roots ∧ d.time = t) ∧
     s.tk.time = t := by
-  sorry
+  exact ⟨hs.inv.pre.keys_ext, hs.inv.pre.disp_ext, hs.inv.time⟩
 
 /-- **C01, ordering.** In every run of a tick, when a component is dispatched every
 first-order upstream of it that takes part in the tick has already answered. -/
@@ -40,7 +42,7 @@ theorem update_after_upstreams (w : Wiring) (react : React Val) (t : SimTime) (r
     (pre post : List (Ev Val)) (d : Dispatch Val) (htr : s.trace = pre ++ Ev.dispatch d :: post)
     (us : List Comp) (hus : w.ups d.comp = some us) (u : Comp) (hu : u ∈ us) (hext : u ∈ extent w roots) :
     ∃ ch, Ev.answer u ch ∈ pre := by
-  sorry
+  exact hs.inv.pre.order pre d post htr us hus u hu hext
 
 /-- **C01, at most once.** No component is dispatched twice in a tick, and every answer
 follows its own dispatch. -/
@@ -48,26 +50,26 @@ theorem dispatch_at_most_once (w : Wiring) (react : React Val) (t : SimTime) (ro
     (s : TickSys Val) (hs : s.Reachable w react t roots) (c : Comp) :
     (s.trace.filter (Ev.isDispatchOf c)).length ≤ 1 ∧
     (s.trace.filter (Ev.isAnswerOf c)).length ≤ (s.trace.filter (Ev.isDispatchOf c)).length := by
-  sorry
+  exact hs.inv.pre.count c
 
 /-- resolved = answered: a member of the extent is out of `to_update` iff it has answered. -/
 theorem resolved_iff_answered (w : Wiring) (react : React Val) (t : SimTime) (roots : List Comp)
     (s : TickSys Val) (hs : s.Reachable w react t roots) (c : Comp) (hc : c ∈ extent w roots) :
     alookup s.tk.toUpdate c = none ↔ ∃ ch, Ev.answer c ch ∈ s.trace := by
-  sorry
+  exact hs.inv.pre.resolved c hc
 
 /-- no failure: with roots that are components of the wiring, the tick starts and every
 step of every run succeeds (no `KeyError`, no failed assertion). -/
 theorem init_ok (w : Wiring) (t : SimTime) (roots : List Comp)
     (hroots : ∀ c ∈ extent w roots, (w.ups c).isSome) :
     ∃ s : TickSys Val, TickSys.init w t roots = .ok s := by
-  sorry
+  exact TickSys.init_ok_of t hroots
 
 theorem step_ok (w : Wiring) (react : React Val) (t : SimTime) (roots : List Comp)
     (hroots : ∀ c ∈ extent w roots, (w.ups c).isSome)
     (s : TickSys Val) (hs : s.Reachable w react t roots) (i : Nat) (hi : i < s.pending.length) :
     ∃ s', s.step w react i = some (.ok s') := by
-  sorry
+  exact hs.inv.step_ok hroots hi
 
 /-- **progress / no stall.** On an acyclic wiring, while anything is unresolved some
 dispatch is pending, so some step is enabled; each step resolves exactly one component.
@@ -76,24 +78,54 @@ theorem progress (w : Wiring) (hacyc : w.Acyclic) (react : React Val) (t : SimTi
     (hroots : ∀ c ∈ extent w roots, (w.ups c).isSome)
     (s : TickSys Val) (hs : s.Reachable w react t roots) (hne : s.tk.toUpdate ≠ []) :
     s.pending ≠ [] := by
-  sorry
+  have _ := hroots -- not needed: success of the run so far already gives `ups` for every member
+  exact hs.inv.progress hacyc hne
 
 theorem step_measure (w : Wiring) (react : React Val) (s s' : TickSys Val) (i : Nat)
     (h : s.step w react i = some (.ok s')) :
     s'.tk.toUpdate.length + 1 = s.tk.toUpdate.length := by
-  sorry
+  exact TickSys.step_measure' h
 
 /-- `finished` is raised exactly when nothing is left (after at least one answer). -/
 theorem finished_iff (w : Wiring) (react : React Val) (t : SimTime) (roots : List Comp)
     (s s' : TickSys Val) (i : Nat) (hs : s.Reachable w react t roots)
     (h : s.step w react i = some (.ok s')) :
     s'.tk.finished = true ↔ s'.tk.toUpdate = [] := by
-  sorry
+  exact hs.inv.finished_iff h
 
 /-! non-vacuity: a diamond, answered in the order c, b, d after a -/
 def exW : Wiring :=
   [("a", [("o", [("b", "i"), ("c", "i")])]), ("b", [("o", [("d", "i1")])]), ("c", [("o", [("d", "i2")])]), ("d", [])]
 
 example : extent exW ["a"] = ["a", "b", "c", "d"] := by decide
+
+/-- the hypothesis of `init_ok`/`step_ok`/`progress` holds for the diamond. -/
+example : ∀ c ∈ extent exW ["a"], (exW.ups c).isSome := by decide
+
+/-- the diamond is acyclic. -/
+example : exW.Acyclic := by
+  refine ⟨fun c => if c = "d" then 2 else if c = "b" ∨ c = "c" then 1 else 0, ?_⟩
+  have hinv : exW.inverseTree = [("b", ["a"]), ("c", ["a"]), ("d", ["b", "c"]), ("a", [])] := by
+    decide
+  intro c us u hus hu
+  simp only [Wiring.ups, hinv, alookup] at hus
+  split at hus
+  · cases hus; simp at hu; subst_vars; decide
+  · split at hus
+    · cases hus; simp at hu; subst_vars; decide
+    · split at hus
+      · cases hus; simp at hu; rcases hu with rfl | rfl <;> subst_vars <;> decide
+      · split at hus
+        · cases hus; simp at hu
+        · cases hus
+
+def exReact : React Unit := fun _ _ => [("o", ())]
+
+/-- a complete run (a; then c, b; then d) is `Reachable`, ends `finished`, and its trace has
+the 4 dispatches and 4 answers. -/
+example : ∃ s : TickSys Unit, s.Reachable exW exReact 0 ["a"] ∧ s.tk.finished = true ∧
+    s.tk.toUpdate = [] ∧ s.pending = [] ∧ s.trace.length = 8 := by
+  refine ⟨_, .step (i := 0) (.step (i := 0) (.step (i := 1) (.step (i := 0) (.init rfl) rfl) rfl)
+    rfl) rfl, rfl, rfl, rfl, rfl⟩
 
 end Tickit
